@@ -26,6 +26,9 @@ type ref struct {
 	num     uint64 // trust level
 	den     uint64
 
+	// backFromExpired: tolerate backward steps that start from a header outside the trusting period (listed known finding)
+	backFromExpired bool
+
 	ownCache map[string]error // fullKey -> own +2/3 verdict
 	sigCache map[string]bool  // fullKey|slot|pub -> signature valid
 }
@@ -190,38 +193,49 @@ func (r *ref) backward(a, b *types.LightBlock) string {
 // reach computes the set of header hashes justified at `now` starting from the already trusted light blocks, using
 // only light blocks of the universe as intermediate or final steps. stop (optional) ends the search early.
 func (r *ref) reach(trusted []*types.LightBlock, universe []*types.LightBlock, now time.Time, stop string) map[string]*types.LightBlock {
+	// anchorOK[h]: header h may serve as the start of backward (hash-link) steps: it is a trusted or forward-verified
+	// header that is still inside the trusting period at `now`, or it was itself reached by backward steps from such a
+	// header ("all within the trusting period": spec VerifyHeaderBackwards checks the trusted header it starts from; the
+	// older headers it then links to are of course older still). r.backFromExpired switches the requirement off.
 	reached := map[string]*types.LightBlock{}
-	var frontier []*types.LightBlock
+	anchorOK := map[string]bool{}
 	for _, b := range trusted {
 		if _, ok := reached[hkey(b)]; !ok {
 			reached[hkey(b)] = b
-			frontier = append(frontier, b)
+			anchorOK[hkey(b)] = r.backFromExpired || !r.expired(b, now)
 		}
 	}
-	for len(frontier) > 0 {
+	for changed := true; changed; {
+		changed = false
 		if stop != "" {
 			if _, ok := reached[stop]; ok {
 				return reached
 			}
 		}
-		a := frontier[0]
-		frontier = frontier[1:]
-		for _, b := range universe {
-			if b == nil || b.SignedHeader == nil || b.Header == nil {
-				continue
-			}
-			if _, ok := reached[hkey(b)]; ok {
-				continue
-			}
-			ok := false
-			if b.Height > a.Height {
-				ok = r.forward(a, b, now) == ""
-			} else if b.Height == a.Height-1 {
-				ok = r.backward(a, b) == ""
-			}
-			if ok {
-				reached[hkey(b)] = b
-				frontier = append(frontier, b)
+		var cur []*types.LightBlock
+		for _, a := range reached {
+			cur = append(cur, a)
+		}
+		for _, a := range cur {
+			for _, b := range universe {
+				if b == nil || b.SignedHeader == nil || b.Header == nil {
+					continue
+				}
+				_, have := reached[hkey(b)]
+				if have && anchorOK[hkey(b)] {
+					continue
+				}
+				if b.Height > a.Height {
+					if !have && r.forward(a, b, now) == "" {
+						reached[hkey(b)] = b
+						anchorOK[hkey(b)] = r.backFromExpired || !r.expired(b, now)
+						changed = true
+					}
+				} else if b.Height == a.Height-1 && anchorOK[hkey(a)] && r.backward(a, b) == "" {
+					reached[hkey(b)] = b
+					anchorOK[hkey(b)] = true
+					changed = true
+				}
 			}
 		}
 	}
